@@ -381,6 +381,8 @@ class StmtMixin(object):
             else:
                 lo, hi, step = args
             sym = any(isinstance(x, T) and not x.is_const() for x in (lo, hi, step))
+            if not sym and spec is not None and spec.invariants and self.concrete_int(step) == 1 and not self.frame_is_concrete_only():
+                return self.loop_with_invariant(s, spec, (to_term(lo), to_term(hi)))
             if not sym:
                 lo, hi, step = [self.concrete_int(x, 'range bound') for x in (lo, hi, step)]
                 rng = range(lo, hi, step)
@@ -400,6 +402,10 @@ class StmtMixin(object):
         from . import builtins_ as bi
         items = bi.iterate(self, seq, s.line)
         return self.for_concrete(s, items)
+
+    def frame_is_concrete_only(self):
+        """inlined callee on a concrete-shaped receiver: loops over concrete ranges are unrolled there"""
+        return bool(getattr(self.frame, 'prefer_unroll', False))
 
     def for_concrete(self, s, items):
         for x in items:
@@ -553,6 +559,16 @@ class StmtMixin(object):
         iterate = self.choice(lname)
         # 3. havoc
         for nm in sorted(names):
+            if nm in fr.globals_declared:
+                g = self.module_globals.setdefault(fr.func.module.short, {})
+                curg = g.get(nm)
+                if isinstance(curg, (T, int)) and not isinstance(curg, bool):
+                    nv = self.fresh('%s@%s' % (nm, ordn), INT if not (isinstance(curg, T) and curg.sort == REAL) else REAL)
+                    ctg = fr.func.module.globals_ctypes.get(nm)
+                    if ctg is not None and ctg[0] == 'int' and not ctg[1]:
+                        self.assume_fact(tm.ge(nv, tm.mk_int(0)))
+                    g[nm] = nv
+                continue
             cur = fr.env.get(nm, UNBOUND)
             if cur is UNBOUND:
                 ct = fr.ctypes.get(nm)
